@@ -51,8 +51,9 @@ def make_X(n, geom, rng, d=2):
     raise ValueError(geom)
 
 
-def concretise(sc, entry, seed, encoding=None):
-    """TLC scenario -> concrete query arguments (+ the abstract fields of the trace)"""
+def concretise(sc, entry, seed, encoding=None, dup=False):
+    """TLC scenario -> concrete query arguments (+ the abstract fields of the trace).  dup=True: an index candidate
+    list may name a sample twice (check_indices de-duplicates: the candidate SET is what the property speaks of)"""
     rng = np.random.RandomState(seed)
     n = sc["n"]
     X = make_X(n, sc["geom"], rng)
@@ -70,6 +71,8 @@ def concretise(sc, entry, seed, encoding=None):
         order = list(rng.permutation(len(S)))
         S = [S[i] for i in order]
         candidates = [i - 1 for i in S]
+        if dup and len(S) >= 1 and rng.rand() < 0.3:
+            candidates.insert(int(rng.randint(len(candidates) + 1)), candidates[int(rng.randint(len(candidates)))])
         amode, M = "idx", 0
     elif mode == "rows":
         order = list(rng.permutation(len(S)))
@@ -130,7 +133,7 @@ def events_of(result, return_utilities, width):
 
 
 def record_query(entry, sc, seed, return_utilities, variant=0):
-    conc = concretise(sc, entry, seed)
+    conc = concretise(sc, entry, seed, dup=True)
     ab_ = conc["abstract"]
     try:
         res = call_query(entry, conc, seed, return_utilities, variant)
